@@ -1,5 +1,6 @@
 (* Properties_C05.v — C05 (hunk level): reverse application is the inverse of application. *)
-From PatchV Require Import Base Lines Hunk Locator Options Applier Spec_Locate Spec_Apply Proofs_Conf.
+From PatchV Require Import Base Lines Hunk Locator Formatter Options Applier LineParser Parser World Driver
+     Spec_Locate Spec_Apply Proofs_Conf Proofs_Reverse.
 
 Theorem reverse_hunk_involutive : forall h, reverse_hunk (reverse_hunk h) = h.
 Proof. exact Proofs_Conf.reverse_hunk_involutive. Qed.
@@ -35,3 +36,480 @@ Proof.
   - unfold Conforming. apply (Conf_cons 0 0 [] ex_h [] [] []); try reflexivity; [discriminate|constructor].
   - vm_compute. reflexivity.
 Qed.
+
+(* ---------------------------------------------------------------------------------------------------------------
+   C05 over the driver model (process_section, and the finalisation of deferred git writes): -R restores the old version,
+   exchanges creation and deletion, moves a renamed file back.  Proofs in Proofs_Reverse.v. *)
+
+(* the forward direction in the same shape (Proofs_EndToEnd.section_writes_new_version with the hypotheses on the format,
+   the emptiness of the result and the write bits weakened) *)
+Theorem section_forward_writes : forall o p f A B st s w data mode,
+  plain_options o -> reverse_patch_opt o = false ->
+  pfmt p <> FGit -> poper p = OpChange -> prereq p = [] -> old_path p = f -> new_path p = f -> new_mode p = 0%N ->
+  f <> devnull -> f <> [] -> ~ In 47%N f ->
+  Conforming A B (hunks p) ->
+  (remove_empty_files o <> OBYes \/ lines_bytes (newline_output o) B <> []) ->
+  (Z.of_nat (length A) < MAXZ)%Z ->
+  fault w = None -> deferred_writes st = [] ->
+  lookup (fs w) f = Some (Reg data mode) -> (mode < 4096)%N -> owner_r mode = true -> owner_w mode = true ->
+  split_lines data = A ->
+  exists st' w',
+    process_section o st false p s w = (Ok (st', s), w') /\
+    lookup (fs w') f = Some (Reg (lines_bytes (newline_output o) B) mode) /\
+    (forall q, q <> f -> lookup (fs w') q = lookup (fs w) q) /\
+    same_state st st' /\ fault w' = None /\ umask w' = umask w.
+Proof. exact Proofs_Reverse.section_forward_writes. Qed.
+Print Assumptions section_forward_writes.
+
+(* C05 at driver level: one section of a diff of A to B whose names are a file in the working directory, run with -R when
+   that file is a regular file holding B, readable and writable, and nothing fails: the section ends with exactly A in it
+   (written with the terminators --newline-output asks for), its mode unchanged, every other entry of the tree untouched,
+   no failure recorded, no message, nothing deferred. *)
+Theorem section_reverse_restores : forall o p f A B st s w data mode,
+  plain_options o -> reverse_patch_opt o = true ->
+  pfmt p <> FGit -> poper p = OpChange -> prereq p = [] -> old_path p = f -> new_path p = f -> old_mode p = 0%N ->
+  f <> devnull -> f <> [] -> ~ In 47%N f ->
+  Conforming A B (hunks p) ->
+  (remove_empty_files o <> OBYes \/ lines_bytes (newline_output o) A <> []) ->
+  (Z.of_nat (length B) < MAXZ)%Z ->
+  fault w = None -> deferred_writes st = [] ->
+  lookup (fs w) f = Some (Reg data mode) -> (mode < 4096)%N -> owner_r mode = true -> owner_w mode = true ->
+  split_lines data = B ->
+  exists st' w',
+    process_section o st false p s w = (Ok (st', s), w') /\
+    lookup (fs w') f = Some (Reg (lines_bytes (newline_output o) A) mode) /\
+    (forall q, q <> f -> lookup (fs w') q = lookup (fs w) q) /\
+    same_state st st' /\ fault w' = None /\ umask w' = umask w.
+Proof. exact Proofs_Reverse.section_reverse_restores. Qed.
+Print Assumptions section_reverse_restores.
+
+(* apply, then apply the same patch with -R (a second run: its own options, its own driver state, any stream).  B must be
+   what reading the file the first run wrote gives back: split_lines (lines_bytes .. B) = B. *)
+Theorem section_roundtrip : forall oF oR p f A B st s st2 s2 w data mode,
+  plain_options oF -> reverse_patch_opt oF = false -> plain_options oR -> reverse_patch_opt oR = true ->
+  pfmt p <> FGit -> poper p = OpChange -> prereq p = [] -> old_path p = f -> new_path p = f ->
+  old_mode p = 0%N -> new_mode p = 0%N ->
+  f <> devnull -> f <> [] -> ~ In 47%N f ->
+  Conforming A B (hunks p) ->
+  (remove_empty_files oF <> OBYes \/ lines_bytes (newline_output oF) B <> []) ->
+  (remove_empty_files oR <> OBYes \/ lines_bytes (newline_output oR) A <> []) ->
+  (Z.of_nat (length A) < MAXZ)%Z -> (Z.of_nat (length B) < MAXZ)%Z ->
+  split_lines (lines_bytes (newline_output oF) B) = B ->
+  fault w = None -> deferred_writes st = [] -> deferred_writes st2 = [] ->
+  lookup (fs w) f = Some (Reg data mode) -> (mode < 4096)%N -> owner_r mode = true -> owner_w mode = true ->
+  split_lines data = A ->
+  exists st1 w1 st3 w2,
+    process_section oF st false p s w = (Ok (st1, s), w1) /\
+    process_section oR st2 false p s2 w1 = (Ok (st3, s2), w2) /\
+    lookup (fs w2) f = Some (Reg (lines_bytes (newline_output oR) A) mode) /\
+    (forall q, q <> f -> lookup (fs w2) q = lookup (fs w) q) /\
+    same_state st st1 /\ same_state st2 st3 /\ fault w2 = None /\ umask w2 = umask w.
+Proof. exact Proofs_Reverse.section_roundtrip. Qed.
+Print Assumptions section_roundtrip.
+
+(* byte for byte: with the files given as bytes (A and B are the lines they are read into), and terminators that survive the
+   writing (--newline-output=preserve, or any mode but crlf when neither file has a CR LF line end), the two runs leave
+   in f exactly the bytes it started with *)
+Theorem section_roundtrip_bytes : forall oF oR p f dataA dataB st s st2 s2 w mode,
+  plain_options oF -> reverse_patch_opt oF = false -> plain_options oR -> reverse_patch_opt oR = true ->
+  pfmt p <> FGit -> poper p = OpChange -> prereq p = [] -> old_path p = f -> new_path p = f ->
+  old_mode p = 0%N -> new_mode p = 0%N ->
+  f <> devnull -> f <> [] -> ~ In 47%N f ->
+  Conforming (split_lines dataA) (split_lines dataB) (hunks p) ->
+  (newline_output oF = MKeep \/ newline_output oF <> MCRLF /\ no_crlf (split_lines dataB)) ->
+  (newline_output oR = MKeep \/ newline_output oR <> MCRLF /\ no_crlf (split_lines dataA)) ->
+  (remove_empty_files oF <> OBYes \/ dataB <> []) ->
+  (remove_empty_files oR <> OBYes \/ dataA <> []) ->
+  (Z.of_nat (length (split_lines dataA)) < MAXZ)%Z -> (Z.of_nat (length (split_lines dataB)) < MAXZ)%Z ->
+  fault w = None -> deferred_writes st = [] -> deferred_writes st2 = [] ->
+  lookup (fs w) f = Some (Reg dataA mode) -> (mode < 4096)%N -> owner_r mode = true -> owner_w mode = true ->
+  exists st1 w1 st3 w2,
+    process_section oF st false p s w = (Ok (st1, s), w1) /\
+    lookup (fs w1) f = Some (Reg dataB mode) /\
+    process_section oR st2 false p s2 w1 = (Ok (st3, s2), w2) /\
+    lookup (fs w2) f = Some (Reg dataA mode) /\
+    (forall q, q <> f -> lookup (fs w2) q = lookup (fs w) q) /\
+    had_failure st1 = had_failure st /\ had_failure st3 = had_failure st2 /\ fault w2 = None.
+Proof. exact Proofs_Reverse.section_roundtrip_bytes. Qed.
+Print Assumptions section_roundtrip_bytes.
+
+(* a patch that creates f (old name /dev/null, operation add), f not there: the section creates it with B and the
+   permissions 0666 & ~umask *)
+Theorem section_creates : forall o p f B st s w,
+  plain_options o -> reverse_patch_opt o = false ->
+  pfmt p <> FGit -> poper p = OpAdd -> prereq p = [] -> old_path p = devnull -> new_path p = f -> new_mode p = 0%N ->
+  (index_path p = devnull \/ exists_ (fs w) (index_path p) = false) ->
+  f <> devnull -> f <> [] -> ~ In 47%N f ->
+  Conforming [] B (hunks p) ->
+  fault w = None -> deferred_writes st = [] -> lookup (fs w) f = None ->
+  exists st' w',
+    process_section o st false p s w = (Ok (st', s), w') /\
+    fs w' = upd (fs w) f (Reg (lines_bytes (newline_output o) B) (created_mode (umask w))) /\
+    lookup (fs w') f = Some (Reg (lines_bytes (newline_output o) B) (created_mode (umask w))) /\
+    (forall q, q <> f -> lookup (fs w') q = lookup (fs w) q) /\
+    same_state st st' /\ fault w' = None /\ umask w' = umask w.
+Proof. exact Proofs_Reverse.section_creates. Qed.
+Print Assumptions section_creates.
+
+(* the same patch with -R (and --remove-empty-files in force) when f holds B: the section removes f *)
+Theorem section_reverse_of_creation_removes : forall o p f B st s w data mode,
+  plain_options o -> reverse_patch_opt o = true -> remove_empty_files o = OBYes ->
+  poper p = OpAdd -> prereq p = [] -> old_path p = devnull -> new_path p = f ->
+  f <> devnull -> f <> [] -> ~ In 47%N f ->
+  Conforming [] B (hunks p) -> (Z.of_nat (length B) < MAXZ)%Z ->
+  fault w = None -> deferred_writes st = [] ->
+  lookup (fs w) f = Some (Reg data mode) -> (mode < 4096)%N -> owner_r mode = true ->
+  (N.land mode write_mask <> 0%N \/ read_only o <> ROFail) ->
+  split_lines data = B ->
+  exists st' w',
+    process_section o st false p s w = (Ok (st', s), w') /\
+    fs w' = remove_key (fs w) f /\
+    lookup (fs w') f = None /\
+    (forall q, q <> f -> lookup (fs w') q = lookup (fs w) q) /\
+    same_state st st' /\ fault w' = None /\ umask w' = umask w.
+Proof. exact Proofs_Reverse.section_reverse_of_creation_removes. Qed.
+Print Assumptions section_reverse_of_creation_removes.
+
+(* a patch that deletes f (new name /dev/null, operation delete), f holding A, --remove-empty-files in force: removed *)
+Theorem section_deletes : forall o p f A st s w data mode,
+  plain_options o -> reverse_patch_opt o = false -> remove_empty_files o = OBYes ->
+  poper p = OpDelete -> prereq p = [] -> old_path p = f -> new_path p = devnull ->
+  f <> devnull -> f <> [] -> ~ In 47%N f ->
+  Conforming A [] (hunks p) -> (Z.of_nat (length A) < MAXZ)%Z ->
+  fault w = None -> deferred_writes st = [] ->
+  lookup (fs w) f = Some (Reg data mode) -> (mode < 4096)%N -> owner_r mode = true ->
+  (N.land mode write_mask <> 0%N \/ read_only o <> ROFail) ->
+  split_lines data = A ->
+  exists st' w',
+    process_section o st false p s w = (Ok (st', s), w') /\
+    fs w' = remove_key (fs w) f /\
+    lookup (fs w') f = None /\
+    (forall q, q <> f -> lookup (fs w') q = lookup (fs w) q) /\
+    same_state st st' /\ fault w' = None /\ umask w' = umask w.
+Proof. exact Proofs_Reverse.section_deletes. Qed.
+Print Assumptions section_deletes.
+
+(* the same patch with -R when f is not there: the section recreates it with A (permissions 0666 & ~umask) *)
+Theorem section_reverse_of_deletion_recreates : forall o p f A st s w,
+  plain_options o -> reverse_patch_opt o = true ->
+  pfmt p <> FGit -> poper p = OpDelete -> prereq p = [] -> old_path p = f -> new_path p = devnull -> old_mode p = 0%N ->
+  (index_path p = devnull \/ exists_ (fs w) (index_path p) = false) ->
+  f <> devnull -> f <> [] -> ~ In 47%N f ->
+  Conforming A [] (hunks p) ->
+  fault w = None -> deferred_writes st = [] -> lookup (fs w) f = None ->
+  exists st' w',
+    process_section o st false p s w = (Ok (st', s), w') /\
+    fs w' = upd (fs w) f (Reg (lines_bytes (newline_output o) A) (created_mode (umask w))) /\
+    lookup (fs w') f = Some (Reg (lines_bytes (newline_output o) A) (created_mode (umask w))) /\
+    (forall q, q <> f -> lookup (fs w') q = lookup (fs w) q) /\
+    same_state st st' /\ fault w' = None /\ umask w' = umask w.
+Proof. exact Proofs_Reverse.section_reverse_of_deletion_recreates. Qed.
+Print Assumptions section_reverse_of_deletion_recreates.
+
+(* create, then the same patch with -R: the tree is, entry for entry and in the same order, the tree before the creation *)
+Theorem creation_roundtrip : forall oF oR p f B st s st2 s2 w,
+  plain_options oF -> reverse_patch_opt oF = false ->
+  plain_options oR -> reverse_patch_opt oR = true -> remove_empty_files oR = OBYes ->
+  pfmt p <> FGit -> poper p = OpAdd -> prereq p = [] -> old_path p = devnull -> new_path p = f -> new_mode p = 0%N ->
+  (index_path p = devnull \/ exists_ (fs w) (index_path p) = false) ->
+  f <> devnull -> f <> [] -> ~ In 47%N f ->
+  Conforming [] B (hunks p) -> (Z.of_nat (length B) < MAXZ)%Z ->
+  split_lines (lines_bytes (newline_output oF) B) = B ->
+  fault w = None -> deferred_writes st = [] -> deferred_writes st2 = [] -> lookup (fs w) f = None ->
+  owner_r (created_mode (umask w)) = true ->
+  (N.land (created_mode (umask w)) write_mask <> 0%N \/ read_only oR <> ROFail) ->
+  exists st1 w1 st3 w2,
+    process_section oF st false p s w = (Ok (st1, s), w1) /\
+    lookup (fs w1) f = Some (Reg (lines_bytes (newline_output oF) B) (created_mode (umask w))) /\
+    process_section oR st2 false p s2 w1 = (Ok (st3, s2), w2) /\
+    fs w2 = fs w /\
+    same_state st st1 /\ same_state st2 st3 /\ fault w2 = None /\ umask w2 = umask w.
+Proof. exact Proofs_Reverse.creation_roundtrip. Qed.
+Print Assumptions creation_roundtrip.
+
+(* delete, then the same patch with -R: the file is back with its content (as --newline-output writes it) and the
+   permissions of a new file; every other entry as at the start *)
+Theorem deletion_roundtrip : forall oF oR p f A st s st2 s2 w data mode,
+  plain_options oF -> reverse_patch_opt oF = false -> remove_empty_files oF = OBYes ->
+  plain_options oR -> reverse_patch_opt oR = true ->
+  pfmt p <> FGit -> poper p = OpDelete -> prereq p = [] -> old_path p = f -> new_path p = devnull -> old_mode p = 0%N ->
+  (index_path p = devnull \/ exists_ (remove_key (fs w) f) (index_path p) = false) ->
+  f <> devnull -> f <> [] -> ~ In 47%N f ->
+  Conforming A [] (hunks p) -> (Z.of_nat (length A) < MAXZ)%Z ->
+  fault w = None -> deferred_writes st = [] -> deferred_writes st2 = [] ->
+  lookup (fs w) f = Some (Reg data mode) -> (mode < 4096)%N -> owner_r mode = true ->
+  (N.land mode write_mask <> 0%N \/ read_only oF <> ROFail) ->
+  split_lines data = A ->
+  exists st1 w1 st3 w2,
+    process_section oF st false p s w = (Ok (st1, s), w1) /\
+    lookup (fs w1) f = None /\
+    process_section oR st2 false p s2 w1 = (Ok (st3, s2), w2) /\
+    lookup (fs w2) f = Some (Reg (lines_bytes (newline_output oR) A) (created_mode (umask w))) /\
+    (forall q, q <> f -> lookup (fs w2) q = lookup (fs w) q) /\
+    same_state st st1 /\ same_state st2 st3 /\ fault w2 = None /\ umask w2 = umask w.
+Proof. exact Proofs_Reverse.deletion_roundtrip. Qed.
+Print Assumptions deletion_roundtrip.
+
+(* -R of a creating patch without --remove-empty-files: f is NOT removed; it is left there with no content *)
+Theorem section_reverse_of_creation_without_E : forall o p f B st s w data mode,
+  plain_options o -> reverse_patch_opt o = true -> remove_empty_files o <> OBYes ->
+  pfmt p <> FGit -> poper p = OpAdd -> prereq p = [] -> old_path p = devnull -> new_path p = f -> old_mode p = 0%N ->
+  f <> devnull -> f <> [] -> ~ In 47%N f ->
+  Conforming [] B (hunks p) -> (Z.of_nat (length B) < MAXZ)%Z ->
+  fault w = None -> deferred_writes st = [] ->
+  lookup (fs w) f = Some (Reg data mode) -> (mode < 4096)%N -> owner_r mode = true -> owner_w mode = true ->
+  split_lines data = B ->
+  exists st' w',
+    process_section o st false p s w = (Ok (st', s), w') /\
+    lookup (fs w') f = Some (Reg [] mode) /\
+    (forall q, q <> f -> lookup (fs w') q = lookup (fs w) q) /\
+    same_state st st' /\ fault w' = None /\ umask w' = umask w.
+Proof. exact Proofs_Reverse.section_reverse_of_creation_without_E. Qed.
+Print Assumptions section_reverse_of_creation_without_E.
+
+(* a git rename of f to g with a diff of A to B, f holding A, g not there: at the end of the run g holds B with the
+   permissions f had, f is gone, every other entry untouched *)
+Theorem rename_forward : forall o p f g A B st s w data mode,
+  plain_options o -> reverse_patch_opt o = false ->
+  pfmt p = FGit -> poper p = OpRename -> prereq p = [] -> old_path p = f -> new_path p = g -> new_mode p = 0%N ->
+  f <> g -> f <> devnull -> f <> [] -> ~ In 47%N f -> g <> [] -> ~ In 47%N g ->
+  Conforming A B (hunks p) -> (Z.of_nat (length A) < MAXZ)%Z ->
+  fault w = None -> deferred_writes st = [] -> deferred_removals st = [] ->
+  lookup (fs w) f = Some (Reg data mode) -> (mode < 4096)%N -> owner_r mode = true ->
+  lookup (fs w) g = None ->
+  split_lines data = A ->
+  exists st1 w1 st2 w2 w3,
+    process_section o st false p s w = (Ok (st1, s), w1) /\ fs w1 = fs w /\
+    finalize_writes o st1 (deferred_writes st1) w1 = (Ok st2, w2) /\
+    finalize_removals (deferred_writes st1) (deferred_removals st1) w2 = (Ok tt, w3) /\
+    lookup (fs w3) g = Some (Reg (lines_bytes (newline_output o) B) mode) /\
+    lookup (fs w3) f = None /\
+    (forall q, q <> f -> q <> g -> lookup (fs w3) q = lookup (fs w) q) /\
+    had_failure st2 = had_failure st /\ events st2 = events st /\ fault w3 = None /\ umask w3 = umask w.
+Proof. exact Proofs_Reverse.rename_forward. Qed.
+Print Assumptions rename_forward.
+
+(* the same patch with -R when g holds B and f is not there: the file is moved back, f holds A with the permissions g had *)
+Theorem rename_reverse : forall o p f g A B st s w data mode,
+  plain_options o -> reverse_patch_opt o = true ->
+  pfmt p = FGit -> poper p = OpRename -> prereq p = [] -> old_path p = f -> new_path p = g -> old_mode p = 0%N ->
+  f <> g -> g <> devnull -> f <> [] -> ~ In 47%N f -> g <> [] -> ~ In 47%N g ->
+  Conforming A B (hunks p) -> (Z.of_nat (length B) < MAXZ)%Z ->
+  fault w = None -> deferred_writes st = [] -> deferred_removals st = [] ->
+  lookup (fs w) g = Some (Reg data mode) -> (mode < 4096)%N -> owner_r mode = true ->
+  lookup (fs w) f = None ->
+  split_lines data = B ->
+  exists st1 w1 st2 w2 w3,
+    process_section o st false p s w = (Ok (st1, s), w1) /\ fs w1 = fs w /\
+    finalize_writes o st1 (deferred_writes st1) w1 = (Ok st2, w2) /\
+    finalize_removals (deferred_writes st1) (deferred_removals st1) w2 = (Ok tt, w3) /\
+    lookup (fs w3) f = Some (Reg (lines_bytes (newline_output o) A) mode) /\
+    lookup (fs w3) g = None /\
+    (forall q, q <> g -> q <> f -> lookup (fs w3) q = lookup (fs w) q) /\
+    had_failure st2 = had_failure st /\ events st2 = events st /\ fault w3 = None /\ umask w3 = umask w.
+Proof. exact Proofs_Reverse.rename_reverse. Qed.
+Print Assumptions rename_reverse.
+
+(* rename, then the same patch with -R in a second run: f is back, with content A as --newline-output writes it and its
+   permissions; g is gone again; every other entry as at the start *)
+Theorem rename_roundtrip : forall oF oR p f g A B st s st' s' w data mode,
+  plain_options oF -> reverse_patch_opt oF = false -> plain_options oR -> reverse_patch_opt oR = true ->
+  pfmt p = FGit -> poper p = OpRename -> prereq p = [] -> old_path p = f -> new_path p = g ->
+  old_mode p = 0%N -> new_mode p = 0%N ->
+  f <> g -> f <> devnull -> g <> devnull -> f <> [] -> ~ In 47%N f -> g <> [] -> ~ In 47%N g ->
+  Conforming A B (hunks p) -> (Z.of_nat (length A) < MAXZ)%Z -> (Z.of_nat (length B) < MAXZ)%Z ->
+  split_lines (lines_bytes (newline_output oF) B) = B ->
+  fault w = None -> deferred_writes st = [] -> deferred_removals st = [] ->
+  deferred_writes st' = [] -> deferred_removals st' = [] ->
+  lookup (fs w) f = Some (Reg data mode) -> (mode < 4096)%N -> owner_r mode = true ->
+  lookup (fs w) g = None ->
+  split_lines data = A ->
+  exists st1 w1 st2 w2 w3 st4 w4 st5 w5 w6,
+    process_section oF st false p s w = (Ok (st1, s), w1) /\
+    finalize_writes oF st1 (deferred_writes st1) w1 = (Ok st2, w2) /\
+    finalize_removals (deferred_writes st1) (deferred_removals st1) w2 = (Ok tt, w3) /\
+    lookup (fs w3) g = Some (Reg (lines_bytes (newline_output oF) B) mode) /\ lookup (fs w3) f = None /\
+    process_section oR st' false p s' w3 = (Ok (st4, s'), w4) /\
+    finalize_writes oR st4 (deferred_writes st4) w4 = (Ok st5, w5) /\
+    finalize_removals (deferred_writes st4) (deferred_removals st4) w5 = (Ok tt, w6) /\
+    lookup (fs w6) f = Some (Reg (lines_bytes (newline_output oR) A) mode) /\ lookup (fs w6) g = None /\
+    (forall q, q <> f -> q <> g -> lookup (fs w6) q = lookup (fs w) q) /\
+    had_failure st2 = had_failure st /\ had_failure st5 = had_failure st' /\ fault w6 = None.
+Proof. exact Proofs_Reverse.rename_roundtrip. Qed.
+Print Assumptions rename_roundtrip.
+
+(* ---------- non-vacuity: the hypotheses hold on concrete instances, and the runs evaluate to what is stated ---------- *)
+Local Open Scope string_scope.
+Definition rex_nl : list N := [10%N].
+Definition rex_l (s : String.string) := mkLine (bs s) LF.
+(* -E (remove empty files) given; everything else as without options; rev = -R *)
+Definition rex_o (rev : bool) :=
+  mkOptions false false [] [] false [] false false false [] (-1) 2 rev [] [] false false false false false false false false
+            OBUnset OBYes MNative RFDefault ROWarn QSUnset [] [].
+Definition rex_st := mkDS false [] [] [] [].
+Definition rex_s := stream_of [].
+Definition rex_A := [rex_l "a"; rex_l "b"].
+Definition rex_B := [rex_l "a"; rex_l "B"; rex_l "c"].
+Definition rex_dataA := bs "a" ++ rex_nl ++ bs "b" ++ rex_nl.
+Definition rex_dataB := bs "a" ++ rex_nl ++ bs "B" ++ rex_nl ++ bs "c" ++ rex_nl.
+Definition rex_h := mkHunk (mkRange 1 2) (mkRange 1 3)
+  [mkPL Ctx (rex_l "a"); mkPL Del (rex_l "b"); mkPL Add (rex_l "B"); mkPL Add (rex_l "c")].
+Definition rex_other : list N * node := (bs "other", Reg (bs "x") 256).
+
+Lemma rex_conf : Conforming rex_A rex_B [rex_h].
+Proof. unfold Conforming. apply (Conf_cons 0 0 [] rex_h [] [] []); try reflexivity; [discriminate|constructor]. Qed.
+
+Lemma rex_plain rev : plain_options (rex_o rev).
+Proof. unfold plain_options. repeat split; try reflexivity. cbn. discriminate. Qed.
+
+Ltac rex_side := first [ reflexivity | discriminate | exact rex_conf | apply rex_plain
+                      | (vm_compute; reflexivity) | (vm_compute; discriminate)
+                      | (vm_compute; intros [H|[]]; discriminate H)
+                      | (left; discriminate) | (right; discriminate)
+                      | (left; reflexivity) | (right; vm_compute; reflexivity) ].
+
+(* (1) a change: f holds B, -R gives A back; f holds A, patch then patch -R gives A's bytes back *)
+Definition rex_p := mkPatch FUnified OpChange [] [] (bs "f") (bs "f") [] [] 0 0 [rex_h].
+Definition rex_w (data : list N) := mkWorld [rex_other; (bs "f", Reg data 420)] 18 [] None [].
+
+Example reverse_restores_nonvacuous :
+  exists st' w',
+    process_section (rex_o true) rex_st false rex_p rex_s (rex_w rex_dataB) = (Ok (st', rex_s), w') /\
+    lookup (fs w') (bs "f") = Some (Reg (lines_bytes (newline_output (rex_o true)) rex_A) 420) /\
+    (forall q, q <> bs "f" -> lookup (fs w') q = lookup (fs (rex_w rex_dataB)) q) /\
+    same_state rex_st st' /\ fault w' = None /\ umask w' = umask (rex_w rex_dataB).
+Proof. apply (section_reverse_restores (rex_o true) rex_p (bs "f") rex_A rex_B rex_st rex_s (rex_w rex_dataB) rex_dataB 420); rex_side. Qed.
+
+Example reverse_restores_run :
+  let r := process_section (rex_o true) rex_st false rex_p rex_s (rex_w rex_dataB) in
+  fst r = Ok (rex_st, rex_s) /\ fs (snd r) = [(bs "f", Reg rex_dataA 420); rex_other] /\
+  trace (snd r) = [OOpenRead (bs "f"); OWrite (bs "f") rex_dataA; OChmod (bs "f") 420].
+Proof. vm_compute. repeat split; reflexivity. Qed.
+
+Example roundtrip_bytes_nonvacuous :
+  exists st1 w1 st3 w2,
+    process_section (rex_o false) rex_st false rex_p rex_s (rex_w rex_dataA) = (Ok (st1, rex_s), w1) /\
+    lookup (fs w1) (bs "f") = Some (Reg rex_dataB 420) /\
+    process_section (rex_o true) rex_st false rex_p rex_s w1 = (Ok (st3, rex_s), w2) /\
+    lookup (fs w2) (bs "f") = Some (Reg rex_dataA 420) /\
+    (forall q, q <> bs "f" -> lookup (fs w2) q = lookup (fs (rex_w rex_dataA)) q) /\
+    had_failure st1 = had_failure rex_st /\ had_failure st3 = had_failure rex_st /\ fault w2 = None.
+Proof.
+  apply (section_roundtrip_bytes (rex_o false) (rex_o true) rex_p (bs "f") rex_dataA rex_dataB rex_st rex_s rex_st rex_s (rex_w rex_dataA) 420);
+    try rex_side.
+  - right. split; [discriminate|]. vm_compute. repeat constructor; discriminate.
+  - right. split; [discriminate|]. vm_compute. repeat constructor; discriminate.
+Qed.
+
+(* (2) creation and deletion *)
+Definition rex_hc := mkHunk (mkRange 0 0) (mkRange 1 2) [mkPL Add (rex_l "a"); mkPL Add (rex_l "b")].
+Definition rex_hd := mkHunk (mkRange 1 2) (mkRange 0 0) [mkPL Del (rex_l "a"); mkPL Del (rex_l "b")].
+Definition rex_pc := mkPatch FUnified OpAdd [] [] devnull (bs "f") [] [] 0 0 [rex_hc].
+Definition rex_pd := mkPatch FUnified OpDelete [] [] (bs "f") devnull [] [] 0 0 [rex_hd].
+Definition rex_w0 := mkWorld [rex_other] 18 [] None [].
+
+Lemma rex_conf_c : Conforming [] rex_A (hunks rex_pc).
+Proof. unfold Conforming. apply (Conf_cons 0 0 [] rex_hc [] [] []); try reflexivity; [discriminate|constructor]. Qed.
+Lemma rex_conf_d : Conforming rex_A [] (hunks rex_pd).
+Proof. unfold Conforming. apply (Conf_cons 0 0 [] rex_hd [] [] []); try reflexivity; [discriminate|constructor]. Qed.
+
+Example creation_roundtrip_nonvacuous :
+  exists st1 w1 st3 w2,
+    process_section (rex_o false) rex_st false rex_pc rex_s rex_w0 = (Ok (st1, rex_s), w1) /\
+    lookup (fs w1) (bs "f") = Some (Reg (lines_bytes (newline_output (rex_o false)) rex_A) (created_mode (umask rex_w0))) /\
+    process_section (rex_o true) rex_st false rex_pc rex_s w1 = (Ok (st3, rex_s), w2) /\
+    fs w2 = fs rex_w0 /\
+    same_state rex_st st1 /\ same_state rex_st st3 /\ fault w2 = None /\ umask w2 = umask rex_w0.
+Proof.
+  apply (creation_roundtrip (rex_o false) (rex_o true) rex_pc (bs "f") rex_A rex_st rex_s rex_st rex_s rex_w0); try exact rex_conf_c; rex_side.
+Qed.
+
+Example creation_roundtrip_run :
+  let r1 := process_section (rex_o false) rex_st false rex_pc rex_s rex_w0 in
+  let r2 := process_section (rex_o true) rex_st false rex_pc rex_s (snd r1) in
+  fs (snd r1) = [(bs "f", Reg rex_dataA 420); rex_other] /\ fst r2 = Ok (rex_st, rex_s) /\ fs (snd r2) = [rex_other] /\
+  trace (snd r2) = [OOpenRead (bs "f"); OWrite (bs "f") rex_dataA; OOpenRead (bs "f"); OUnlink (bs "f")].
+Proof. vm_compute. repeat split; reflexivity. Qed.
+
+Example deletion_roundtrip_nonvacuous :
+  exists st1 w1 st3 w2,
+    process_section (rex_o false) rex_st false rex_pd rex_s (rex_w rex_dataA) = (Ok (st1, rex_s), w1) /\
+    lookup (fs w1) (bs "f") = None /\
+    process_section (rex_o true) rex_st false rex_pd rex_s w1 = (Ok (st3, rex_s), w2) /\
+    lookup (fs w2) (bs "f") = Some (Reg (lines_bytes (newline_output (rex_o true)) rex_A) (created_mode (umask (rex_w rex_dataA)))) /\
+    (forall q, q <> bs "f" -> lookup (fs w2) q = lookup (fs (rex_w rex_dataA)) q) /\
+    same_state rex_st st1 /\ same_state rex_st st3 /\ fault w2 = None /\ umask w2 = umask (rex_w rex_dataA).
+Proof.
+  apply (deletion_roundtrip (rex_o false) (rex_o true) rex_pd (bs "f") rex_A rex_st rex_s rex_st rex_s (rex_w rex_dataA) rex_dataA 420);
+    try exact rex_conf_d; rex_side.
+Qed.
+
+(* the file comes back with its bytes; its permissions are those of a new file (here 0600 before, 0644 after) *)
+Example deletion_roundtrip_run :
+  let w := mkWorld [rex_other; (bs "f", Reg rex_dataA 384)] 18 [] None [] in
+  let r1 := process_section (rex_o false) rex_st false rex_pd rex_s w in
+  let r2 := process_section (rex_o true) rex_st false rex_pd rex_s (snd r1) in
+  fs (snd r1) = [rex_other] /\ fst r2 = Ok (rex_st, rex_s) /\ fs (snd r2) = [(bs "f", Reg rex_dataA 420); rex_other].
+Proof. vm_compute. repeat split; reflexivity. Qed.
+
+(* without -E: -R of a creating patch leaves the file, empty, where --remove-empty-files would have removed it *)
+Definition rex_o_noE (rev : bool) :=
+  mkOptions false false [] [] false [] false false false [] (-1) 2 rev [] [] false false false false false false false true
+            OBNo OBNo MNative RFDefault ROWarn QSUnset [] [].
+Example reverse_of_creation_without_E_nonvacuous :
+  exists st' w',
+    process_section (rex_o_noE true) rex_st false rex_pc rex_s (rex_w rex_dataA) = (Ok (st', rex_s), w') /\
+    lookup (fs w') (bs "f") = Some (Reg [] 420) /\
+    (forall q, q <> bs "f" -> lookup (fs w') q = lookup (fs (rex_w rex_dataA)) q) /\
+    same_state rex_st st' /\ fault w' = None /\ umask w' = umask (rex_w rex_dataA).
+Proof.
+  apply (section_reverse_of_creation_without_E (rex_o_noE true) rex_pc (bs "f") rex_A rex_st rex_s (rex_w rex_dataA) rex_dataA 420);
+    try exact rex_conf_c; try rex_side.
+  unfold plain_options. repeat split; try reflexivity. cbn. discriminate.
+Qed.
+
+(* (3) a git rename *)
+Definition rex_pr := mkPatch FGit OpRename [] [] (bs "f") (bs "g") [] [] 0 0 [rex_h].
+
+Example rename_roundtrip_nonvacuous :
+  exists st1 w1 st2 w2 w3 st4 w4 st5 w5 w6,
+    process_section (rex_o false) rex_st false rex_pr rex_s (rex_w rex_dataA) = (Ok (st1, rex_s), w1) /\
+    finalize_writes (rex_o false) st1 (deferred_writes st1) w1 = (Ok st2, w2) /\
+    finalize_removals (deferred_writes st1) (deferred_removals st1) w2 = (Ok tt, w3) /\
+    lookup (fs w3) (bs "g") = Some (Reg (lines_bytes (newline_output (rex_o false)) rex_B) 420) /\ lookup (fs w3) (bs "f") = None /\
+    process_section (rex_o true) rex_st false rex_pr rex_s w3 = (Ok (st4, rex_s), w4) /\
+    finalize_writes (rex_o true) st4 (deferred_writes st4) w4 = (Ok st5, w5) /\
+    finalize_removals (deferred_writes st4) (deferred_removals st4) w5 = (Ok tt, w6) /\
+    lookup (fs w6) (bs "f") = Some (Reg (lines_bytes (newline_output (rex_o true)) rex_A) 420) /\ lookup (fs w6) (bs "g") = None /\
+    (forall q, q <> bs "f" -> q <> bs "g" -> lookup (fs w6) q = lookup (fs (rex_w rex_dataA)) q) /\
+    had_failure st2 = had_failure rex_st /\ had_failure st5 = had_failure rex_st /\ fault w6 = None.
+Proof.
+  apply (rename_roundtrip (rex_o false) (rex_o true) rex_pr (bs "f") (bs "g") rex_A rex_B rex_st rex_s rex_st rex_s (rex_w rex_dataA) rex_dataA 420); rex_side.
+Qed.
+
+(* whole program (run_patch: patch text read from p.diff, header and hunks parsed by the model's parser): a git rename
+   with a change applied, then reversed with -R; a creating patch applied, then reversed *)
+Definition rex_opts (rev : bool) :=
+  mkOptions false false [] [] false (bs "p.diff") false false false [] (-1) 2 rev [] [] false false false false false false false false
+            OBUnset OBYes MNative RFDefault ROWarn QSUnset [] [].
+Definition rex_git := bs "diff --git a/f b/g" ++ rex_nl ++ bs "similarity index 50%" ++ rex_nl ++ bs "rename from f" ++ rex_nl
+  ++ bs "rename to g" ++ rex_nl ++ bs "--- a/f" ++ rex_nl ++ bs "+++ b/g" ++ rex_nl ++ bs "@@ -1,2 +1,3 @@" ++ rex_nl
+  ++ bs " a" ++ rex_nl ++ bs "-b" ++ rex_nl ++ bs "+B" ++ rex_nl ++ bs "+c" ++ rex_nl.
+Definition rex_create := bs "--- /dev/null" ++ rex_nl ++ bs "+++ f" ++ rex_nl ++ bs "@@ -0,0 +1,2 @@" ++ rex_nl
+  ++ bs "+a" ++ rex_nl ++ bs "+b" ++ rex_nl.
+
+Example whole_program_rename :
+  let w := mkWorld [(bs "p.diff", Reg rex_git 420); (bs "f", Reg rex_dataA 384)] 18 [] None [] in
+  let r1 := run_patch (rex_opts false) [] w in
+  let r2 := run_patch (rex_opts true) [] (rr_world r1) in
+  rr_exit r1 = 0 /\ lookup (fs (rr_world r1)) (bs "g") = Some (Reg rex_dataB 384) /\ lookup (fs (rr_world r1)) (bs "f") = None /\
+  rr_exit r2 = 0 /\ lookup (fs (rr_world r2)) (bs "f") = Some (Reg rex_dataA 384) /\ lookup (fs (rr_world r2)) (bs "g") = None.
+Proof. vm_compute. repeat split; reflexivity. Qed.
+
+Example whole_program_creation :
+  let w := mkWorld [(bs "p.diff", Reg rex_create 420)] 18 [] None [] in
+  let r1 := run_patch (rex_opts false) [] w in
+  let r2 := run_patch (rex_opts true) [] (rr_world r1) in
+  rr_exit r1 = 0 /\ lookup (fs (rr_world r1)) (bs "f") = Some (Reg rex_dataA 420) /\
+  rr_exit r2 = 0 /\ fs (rr_world r2) = fs w.
+Proof. vm_compute. repeat split; reflexivity. Qed.
